@@ -8,6 +8,8 @@ CONSTANTS
   MaxClean = @MC@
   MaxSkew = @SK@
   Dev = @DEV@
+  Cap = @CAP@
+  MaxForeign = @MF@
   EmitCex = @CEX@
   SplitClean = @SPLIT@
 INVARIANTS Emit @INV@
